@@ -125,6 +125,16 @@ def judge(part, module, cfg, lines, max_findings=4):
     return findings, states
 
 
+def distinct_nontrivial(lines, min_lines=4):
+    """distinct recorded runs (same lines apart from the run number) in which something happened beyond start / stop"""
+    seen = set()
+    for r in split_runs(lines):
+        if len(r) < min_lines:
+            continue
+        seen.add(json.dumps([{k: v for k, v in l.items() if k != "run"} for l in r], sort_keys=True))
+    return len(seen)
+
+
 def read_trace(path):
     return [json.loads(l) for l in open(path) if l.strip()]
 
@@ -267,6 +277,7 @@ def part_monitor(vh, tier, seed, work):
                 and flines[i - 1]["k"] in ("fire", "ret", "cret", "stop"))
     closes = sum(1 for l in lines + flines if l.get("bcasts", 0) > 0)
     cov.update({"scripts_replayed": len(scripts), "free_runs": nfree, "trace_lines": len(lines) + len(flines),
+                "distinct_runs": distinct_nontrivial(lines + flines),
                 "trace_states_judged": states, "closes_observed": closes,
                 "free_env_actions_while_a_case_was_ready": races,
                 "samples": [" ".join(o + (":" + v if v else "") for o, v in s)[:400] for s in scripts[:2]]})
@@ -360,6 +371,7 @@ def part_withdraw(vh, tier, seed, work):
     findings, drift, states = judge_all("withdraw", "WithdrawTrace", "WithdrawTrace.cfg", "WithdrawTraceConform.cfg",
                                         [lines, flines])
     cov.update({"gen_states": r.distinct, "scripts_replayed": len(scripts), "free_runs": nfree,
+                "distinct_runs": distinct_nontrivial(lines + flines),
                 "trace_lines": len(lines) + len(flines), "trace_states_judged": states,
                 "markers_served": sum(1 for l in lines + flines if l.get("ev") == "withdraw"),
                 "failed_broadcasts_answered": sum(1 for l in lines + flines if l["k"] == "bret" and l["e"] == "err"),
@@ -439,6 +451,7 @@ def part_balance(vh, tier, seed, work):
         findings += fs
     drift, _ = judge("balance", "BalanceTrace", "BalanceTraceConform.cfg", clear)
     cov.update({"scripts_replayed": len(plans), "free_runs": nfree, "trace_lines": len(lines) + len(flines),
+                "distinct_runs": distinct_nontrivial(lines + flines),
                 "trace_states_judged": states, "runs_left_out_of_conformance_as_ambiguous": len(allruns) - len(split_runs(clear)),
                 "withdrawals_observed": sum(l.get("cases", []).count("withdraw-start") for l in lines + flines),
                 "queries_answered": sum(1 for l in lines + flines if l["k"] == "qret"),
@@ -494,6 +507,7 @@ def part_watchdog(vh, tier, seed, work):
         findings += fs
     drift, _ = judge("watchdog", "WatchdogTrace", "WatchdogTraceConform.cfg", lines + flines)
     cov.update({"gen_states": r.distinct, "scripts_replayed": len(scripts), "free_runs": nfree,
+                "distinct_runs": distinct_nontrivial(lines + flines),
                 "trace_lines": len(lines) + len(flines), "trace_states_judged": states,
                 "free_runs_timeout_won": sum(1 for l in flines if l["k"] == "timeout"),
                 "free_runs_stop_won": sum(1 for l in flines if l["k"] == "ended" and l["via"] == "stop"),
@@ -550,6 +564,7 @@ def part_lease(vh, tier, seed, work):
         findings += fs
     drift, _ = judge("lease", "LeaseTrace", "LeaseTraceConform.cfg", lines)
     cov.update({"gen_states": r.distinct, "scripts_replayed": len(scripts), "free_runs": 0, "trace_lines": len(lines),
+                "distinct_runs": distinct_nontrivial(lines),
                 "trace_states_judged": states, "markers_published": sum(1 for l in lines if l["k"] == "marker"),
                 "max_withdrawal_loops_alive": max(l["wloops"] for l in lines),
                 "samples": [" ".join(o["op"] + (":" + o["v"] if o["v"] else "") for o in s) for s in scripts[:3]],
@@ -573,7 +588,7 @@ def run(pid, tier, seed, replay):
     work = vlib.scratch("x03-")
     coverage = {"parts": {}, "exhaustive": False}
     violations, drift_total = [], 0
-    states = transitions = traces = evals = 0
+    states = transitions = traces = evals = distinct = 0
     selftests = {}
     def timed(fn):
         t = time.time()
@@ -592,6 +607,7 @@ def run(pid, tier, seed, replay):
             transitions += c["transitions"]
         traces += cov.get("scripts_replayed", 0) + cov.get("free_runs", 0)
         evals += cov.get("trace_lines", 0)
+        distinct += cov.get("distinct_runs", 0)
         selftests[name] = cov.get("binding_selftest")
         for d in drift:
             drift_total += 1
@@ -607,8 +623,9 @@ def run(pid, tier, seed, replay):
         raise vlib.Inconclusive("binding self-test failed for %s: %s" % (bad, json.dumps(selftests)))
     coverage.update({"states": states, "transitions": transitions, "traces_validated_against_impl": traces,
                      "evaluations": evals, "drift_steps": drift_total,
-                     "distinct_nontrivial": {"count": traces, "rule": "runs (scripts enumerated by TLC and free-running "
-                                             "seeded runs) executed on the real loops and judged by TLC"},
+                     "distinct_nontrivial": distinct,
+                     "distinct_nontrivial_rule": "recorded runs on the real loops that differ in at least one line (run number "
+                                                 "apart) and have at least four lines, i.e. something happened between start and stop",
                      "binding_selftest": {"ok": not bad, "parts": selftests},
                      "samples": coverage["parts"]["monitor"].get("samples", [])})
     return vlib.finish(pid, tier, seed, "model_checking", coverage, t0, violations,
